@@ -47,13 +47,17 @@ def plan(tier):
     pl.units = [U("R1.read_block", "contracts.reader", "h_read_block", (), setup=("contracts.reader", "setup_reader"),
                   replay=("contracts.reader_replay", "replay_read_block")),
                 U("R2.read_line", "contracts.reader", "h_read_line", (), setup=("contracts.reader", "setup_read_line"),
-                  replay=("contracts.reader_replay", "replay_read_line"))]
+                  replay=("contracts.reader_replay", "replay_read_line")),
+                U("R3.read_response.all-lines", "contracts.reader", "h_read_response", (False,), setup=("contracts.reader", "setup_read_response")),
+                U("R3.read_response.nblines", "contracts.reader", "h_read_response", (True,), setup=("contracts.reader", "setup_read_response"))]
     pl.static = [static_frame]
     pl.bounded = [bounded]
     pl.functions = [("sievelib.managesieve", "Client.__read_block"), ("sievelib.managesieve", "Client.__read_line"),
                     ("sievelib.managesieve", "Client.__read_response"), ("sievelib.managesieve", "Client.__parse_error")]
     pl.trusted = [common.TRUSTED_ENV_SOCKET, common.TRUSTED_RE,
                   "Literal.value is the integer between the braces (int() of the digits group; '%d'/int as an abstract inverse pair)"]
+    pl.trusted.append("conforming server: the octets of a literal are followed by SP or CRLF (what is left of that line is data, "
+                      "not a status or size line)")
     pl.unverified = ["EOF (recv returning b''): outside the conforming-server assumption; __read_line then returns an empty line",
                      "the decoding performed by __read_response/__parse_error on top of the two readers is examined per reply shape "
                      "under C09/C17 (bounded there)"]
@@ -61,8 +65,10 @@ def plan(tier):
         "Deductive: __read_block(size) and __read_line() are verified against a demonic recv() (any non-empty prefix of "
         "what the server sent, of any length up to the request): each returns a function of the unread stream avail = "
         "buffer ++ inbound and leaves avail minus exactly the consumed prefix (loop invariants buf ++ buffer ++ inbound = "
-        "avail0 with variant, resp. buffer ++ inbound = avail0; cvc5 discharges the first-CRLF goals). Frame scan: no other "
-        "function touches the buffer or calls recv, and literals are read with the announced count. Lemma (two lines over "
+        "avail0 with variant, resp. buffer ++ inbound = avail0; cvc5 discharges the first-CRLF goals). __read_response is then verified over "
+        "the two readers' contracts (typestate with a ghost consumption log): no read after the status line, an announced "
+        "literal is read with exactly the announced count before anything else, only Error escapes. Frame scan: no other "
+        "function touches the buffer or calls recv. Lemma (two lines over "
         "the contracts): every client result and the residual stream are functions of the concatenated stream, not of its "
         "segmentation. Bounded complement (labelled bounded): end-to-end replays of 10 replies under every single/double "
         "cut and recv limits 1/2/3/7/64 with a sentinel command.")
